@@ -238,6 +238,8 @@ func propC07(c *Ctx) {
 	c.Rule("R7.8", "the segment cache stores only successful fetches and serves only the segment fetched for exactly this range", 5)
 	checkCacheStoresOnlySuccess(c, "R7.8")
 	checkCacheKeyIdentity(c, "R7.8")
+	c.Rule("R7.10", "every log is attached to the block and transaction named by its own blockNumber / transactionIndex", 2)
+	checkLogsGrouping(c, "R7.10")
 	c.Rule("R7.9", "eth_getLogs spans the requested range and is batched with a header probe for its last block", 3)
 	checkLogsProbe(c, "R7.9")
 
@@ -678,6 +680,11 @@ func propC07Ranges(c *Ctx) {
 			return (b.Op == token.GEQ || b.Op == token.GTR) && isBlockNum(b.X) && isUpper(b.Y)
 		})
 		n := 0
+		defer func(fn *ssa.Function, desc string) {
+			if n == 0 {
+				c.Violation("R7.5", fnName(fn)+"/range-test-before-attach", fn.Pos(), "no "+desc+" site found: the routine's shape changed")
+			}
+		}(fn, spec.attDesc)
 		allInstrs(fn, func(in ssa.Instruction) {
 			if !spec.attach(in) {
 				return
